@@ -171,34 +171,91 @@ theorem appWF_deallocApp (key other : String) (r : CItem) (a : CApp) (hwa : AppW
       rw [this, hnb] at hb; cases hb
     rw [hal hne]; exact hwa.boundAllocated x hx hb
 
+/-! ### `runAgain`: a Completing application whose ask is outstanding again runs again (state, log and timer only) -/
+
+@[simp] theorem runAgain_items (a : CApp) : (runAgain a).items = a.items := by unfold runAgain setState; split <;> (try split) <;> rfl
+@[simp] theorem runAgain_pending (a : CApp) : (runAgain a).pending = a.pending := by unfold runAgain setState; split <;> (try split) <;> rfl
+@[simp] theorem runAgain_allocated (a : CApp) : (runAgain a).allocated = a.allocated := by unfold runAgain setState; split <;> (try split) <;> rfl
+@[simp] theorem runAgain_allocatedPh (a : CApp) : (runAgain a).allocatedPh = a.allocatedPh := by unfold runAgain setState; split <;> (try split) <;> rfl
+@[simp] theorem runAgain_live (a : CApp) : (runAgain a).live = a.live := by unfold runAgain setState; split <;> (try split) <;> rfl
+@[simp] theorem runAgain_id (a : CApp) : (runAgain a).id = a.id := by unfold runAgain setState; split <;> (try split) <;> rfl
+@[simp] theorem runAgain_queue (a : CApp) : (runAgain a).queue = a.queue := by unfold runAgain setState; split <;> (try split) <;> rfl
+@[simp] theorem runAgain_user (a : CApp) : (runAgain a).user = a.user := by unfold runAgain setState; split <;> (try split) <;> rfl
+@[simp] theorem runAgain_reservations (a : CApp) : (runAgain a).reservations = a.reservations := by unfold runAgain setState; split <;> (try split) <;> rfl
+@[simp] theorem runAgain_phData (a : CApp) : (runAgain a).phData = a.phData := by unfold runAgain setState; split <;> (try split) <;> rfl
+@[simp] theorem runAgain_phAsk (a : CApp) : (runAgain a).phAsk = a.phAsk := by unfold runAgain setState; split <;> (try split) <;> rfl
+
+theorem fireState_completing_run : fireState "Completing" .run = "Running" := by decide
+
+/-- the state after `runAgain`: Running when it was Completing, unchanged otherwise -/
+theorem runAgain_state (a : CApp) : (runAgain a).state = if a.state = "Completing" then "Running" else a.state := by
+  unfold runAgain
+  by_cases h : a.state = "Completing"
+  · rw [if_pos (by rw [h]; rfl), if_pos h, h, fireState_completing_run]
+    unfold setState
+    split
+    · rename_i h'; rw [h] at h'; exact absurd h' (by decide)
+    · rfl
+  · rw [if_neg (by simpa using h), if_neg h]
+
+theorem runAgain_state_ne (a : CApp) : (runAgain a).state ≠ "Completing" := by
+  rw [runAgain_state]; split
+  · decide
+  · assumption
+
+theorem runAgain_of_ne (a : CApp) (h : a.state ≠ "Completing") : runAgain a = a := by
+  unfold runAgain; rw [if_neg (by simpa using h)]
+
+theorem appBooks_runAgain (a : CApp) (h : AppBooks a) : AppBooks (runAgain a) :=
+  AppBooks.congr (runAgain_items a) (runAgain_allocated a) (runAgain_allocatedPh a) (runAgain_pending a) h
+
+theorem appWF_runAgain (a : CApp) (h : AppWF a) : AppWF (runAgain a) :=
+  AppWF.congr (runAgain_items a) (runAgain_allocated a) (runAgain_allocatedPh a) (runAgain_pending a) h
+
+theorem deallocAppRun_items (key other : String) (r : CItem) (a : CApp) :
+    (deallocAppRun key other r a).items = deallocItems key other a.items := runAgain_items _
+
+theorem appBooks_deallocAppRun (key other : String) (r : CItem) (a : CApp) (hba : AppBooks a) (hwa : AppWF a)
+    (hr : r ∈ a.items) (hkey : r.key = key) (hreq : r.inReq = true) (hal : r.allocated = true) :
+    AppBooks (deallocAppRun key other r a) :=
+  appBooks_runAgain _ (appBooks_deallocApp key other r a hba hwa hr hkey hreq hal)
+
+theorem appWF_deallocAppRun (key other : String) (r : CItem) (a : CApp) (hwa : AppWF a)
+    (hr : r ∈ a.items) (hkey : r.key = key) (hnb : r.bound = false) : AppWF (deallocAppRun key other r a) :=
+  appWF_runAgain _ (appWF_deallocApp key other r a hwa hr hkey hnb)
+
 /-- item 2: the reversal of a replacement: application and queue chain count `r.res` as pending again.  `hsat`: the
     increased pending totals of the queues still hold int64 values (no saturation). -/
 theorem dealloc_props (c : Core) (app key other : String) (a : CApp) (r : CItem) (hw : CoreWF c) (hb : Books c)
     (hfind : c.findApp app = some a) (hr : r ∈ a.items) (hkey : r.key = key) (hreq : r.inReq = true)
     (hal : r.allocated = true) (hnb : r.bound = false)
     (hsat : ∀ q ∈ c.queues, under a.queue q.path = true → allInR (addX q.pending r.res)) :
-    Books (updQueues (updApp c app (deallocApp key other r)) (pathChain c a.queue) (qIncPend r.res)) ∧
-    CoreWF (updQueues (updApp c app (deallocApp key other r)) (pathChain c a.queue) (qIncPend r.res)) := by
+    Books (updQueues (updApp c app (deallocAppRun key other r)) (pathChain c a.queue) (qIncPend r.res)) ∧
+    CoreWF (updQueues (updApp c app (deallocAppRun key other r)) (pathChain c a.queue) (qIncPend r.res)) := by
   obtain ⟨ham, hl, hid⟩ := findApp_some hfind
   have hwa := hw.app ham hl
   obtain ⟨hwr, _⟩ := hwa.itemRes r hr
   have hba := hb.apps a ham hl
-  have hlv : (deallocApp key other r a).live = true := hl
+  have hlv : (deallocAppRun key other r a).live = true := (runAgain_live _).trans hl
   constructor
-  · refine books_upd c _ app a (deallocApp key other r) (pathChain c a.queue) (qIncPend r.res) rfl rfl hb.nodes hw.appIds ham hl hid
-      hb.apps hb.queues rfl (fun _ => appBooks_deallocApp key other r a hba hwa hr hkey hreq hal) (chain_iff c a.queue)
+  · refine books_upd c _ app a (deallocAppRun key other r) (pathChain c a.queue) (qIncPend r.res) rfl rfl hb.nodes hw.appIds ham hl hid
+      hb.apps hb.queues (runAgain_queue _) (fun _ => appBooks_deallocAppRun key other r a hba hwa hr hkey hreq hal) (chain_iff c a.queue)
       (fun _ => rfl) ?_
     intro q hq hun k
+    have ea : (deallocAppRun key other r a).allocated = a.allocated := runAgain_allocated _
+    have eh : (deallocAppRun key other r a).allocatedPh = a.allocatedPh := runAgain_allocatedPh _
+    have ep : (deallocAppRun key other r a).pending = addX a.pending r.res := runAgain_pending _
+    rw [ea, eh, ep]
     constructor
     · show q.allocated.getD k = q.allocated.getD k - (a.allocated.getD k + a.allocatedPh.getD k)
-        + (if (deallocApp key other r a).live = true then a.allocated.getD k + a.allocatedPh.getD k else 0)
+        + (if (deallocAppRun key other r a).live = true then a.allocated.getD k + a.allocatedPh.getD k else 0)
       simp only [hlv, if_true]; omega
     · show (addX q.pending r.res).getD k = q.pending.getD k - a.pending.getD k
-        + (if (deallocApp key other r a).live = true then (addX a.pending r.res).getD k else 0)
+        + (if (deallocAppRun key other r a).live = true then (addX a.pending r.res).getD k else 0)
       rw [addX_getD _ _ hwr, addX_getD _ _ hwr]
       simp only [hlv, if_true]; omega
-  · obtain ⟨h1, h2⟩ := wf_updApps c.apps app (deallocApp key other r) a hw.appIds ham hl hid
-      (fun x hx hxl => hw.app hx hxl) (fun _ _ => rfl) (fun _ => appWF_deallocApp key other r a hwa hr hkey hnb)
+  · obtain ⟨h1, h2⟩ := wf_updApps c.apps app (deallocAppRun key other r) a hw.appIds ham hl hid
+      (fun x hx hxl => hw.app hx hxl) (fun _ _ => runAgain_id _) (fun _ => appWF_deallocAppRun key other r a hwa hr hkey hnb)
     have h3 := wf_updQs c.queues (pathChain c a.queue) (qIncPend r.res) (fun q hq => hw.queue hq)
       (fun q hq hc => ⟨(hw.queue hq).allocated, addX_wf _ _ (hw.queue hq).pending,
         hsat q hq ((chain_iff c a.queue q hq).mp hc)⟩)
@@ -371,7 +428,7 @@ theorem nodeRmAlloc_same (c : Core) (nodeId app key : String) (a : CApp) (i : CI
     (hph : i.ph = true) (hreal : findReal c a rk = some r) (hnode : (r.node != nodeId) = false) :
     nodeRmAlloc c nodeId app key = nodeRmBound
       (if (r.inReq && r.allocated) = true then
-        updQueues (updApp c app (deallocApp rk key r)) (pathChain c a.queue) (qIncPend r.res)
+        updQueues (updApp c app (deallocAppRun rk key r)) (pathChain c a.queue) (qIncPend r.res)
        else updApp c app (unlinkApp rk key)) app key := by
   unfold nodeRmAlloc; simp only [hfind, hitem, hrel, hph, if_true, hreal, hnode, Bool.false_eq_true, if_false]
 
@@ -380,7 +437,7 @@ theorem nodeRmAlloc_parked (c : Core) (nodeId app key : String) (a : CApp) (i : 
     (hph : i.ph = false) :
     nodeRmAlloc c nodeId app key =
       if (i.inReq && i.allocated) = true then
-        nodeRmBound (updQueues (updApp c app (deallocApp key rk i)) (pathChain c a.queue) (qIncPend i.res)) app key
+        nodeRmBound (updQueues (updApp c app (deallocAppRun key rk i)) (pathChain c a.queue) (qIncPend i.res)) app key
       else nodeRmBound (updApp c app (unlinkApp rk key)) app key := by
   unfold nodeRmAlloc; simp only [hfind, hitem, hrel, hph, Bool.false_eq_true, if_false]
 
